@@ -3,10 +3,22 @@
 set -e
 cd "$(dirname "$0")"
 export CARGO_NET_OFFLINE=true
+REPO="${PV_REPO:-/repo}"
 mkdir -p .cache out evidence
-python3 tools/extract.py --repo "${PV_REPO:-/repo}"
+python3 tools/extract.py --repo "$REPO"
 ( cd coq && coq_makefile -f _CoqProject -o Makefile >/dev/null && timeout 3000 make -j"$(nproc)" )
 sh model_runner/build.sh
-cp "${PV_REPO:-/repo}/Cargo.lock" harness/Cargo.lock
+cp "$REPO/Cargo.lock" harness/Cargo.lock
 ( cd harness && CARGO_TARGET_DIR=../.cache/target cargo build --offline --quiet 2>/dev/null || CARGO_TARGET_DIR=../.cache/target cargo build --offline )
+# families (self-contained sub-projects, see fam/README.md)
+for f in fam/*/; do
+  [ -d "$f" ] || continue
+  name=$(basename "$f")
+  if [ -f "$f/coq/_CoqProject" ]; then ( cd "$f/coq" && coq_makefile -f _CoqProject -o Makefile >/dev/null && timeout 3000 make -j"$(nproc)" ); fi
+  if [ -f "$f/runner/build.sh" ]; then sh "$f/runner/build.sh"; fi
+  if [ -f "$f/harness/Cargo.toml" ]; then
+    cp "$REPO/Cargo.lock" "$f/harness/Cargo.lock"
+    ( cd "$f/harness" && CARGO_TARGET_DIR="$(pwd)/../../../.cache/target_$name" cargo build --offline --quiet 2>/dev/null || CARGO_TARGET_DIR="$(pwd)/../../../.cache/target_$name" cargo build --offline )
+  fi
+done
 echo "setup ok"
